@@ -163,7 +163,7 @@ def plan(ctx):
         ('shard_random', [('rnd', ctx.pick(1200, 30000), i) for i in range(16)]),
         ('shard_mutations', [('mut', ctx.pick(3, 8), i) for i in range(16)]),
         ('shard_faults', [('faults', ctx.pick(32, 1200), i) for i in range(16)] +
-                         [('longfaults', ctx.pick(3, 120), 16 + i) for i in range(4)]),
+                         [('longfaults', ctx.pick(3, 8), 16 + i) for i in range(4)]),
         ('shard_docs', [('docs', ctx.pick(80, 5000), i) for i in range(16)]),
     ]
 
